@@ -13,7 +13,7 @@ from ..symex import (Alt, CondI, Const, CtxV, Hole, JoinP, ListV, Lit, One, Opaq
 from .c09 import dialect_of
 from .c12 import peel
 
-LOCK_FORMS = ["FOR NO KEY UPDATE", "FOR KEY SHARE", "FOR SHARE"]     # spellings of the row-locking clause besides FOR UPDATE
+LOCK_FORMS = ["FOR NO KEY UPDATE"]     # another strength of the FOR UPDATE clause (FOR SHARE / FOR KEY SHARE are clauses of their own, a statement may carry both, and they are not in the reference table)
 TOKENS = LOCK_FORMS + ["ON DUPLICATE KEY UPDATE", "DO UPDATE SET", "DO NOTHING", "ON CONFLICT", "INSERT IGNORE INTO", "INSERT INTO", "REPLACE INTO",
           "WITH ROLLUP", "WITH TOTALS", "WITH RECURSIVE", "WITH TIES", "WITH", "SELECT", "DISTINCT ON", "DISTINCT", "TOP", "INTO", "FROM", "FORCE INDEX", "USE INDEX",
           "PREWHERE", "WHERE", "GROUP BY", "HAVING", "ORDER BY", "LIMIT", "OFFSET", "FETCH NEXT", "FOR UPDATE", "RETURNING", "UPDATE", "SET",
